@@ -5,18 +5,18 @@
 # VERIF_REPO), which leaves /repo free; MUT_TARGET_DIR picks the build directory for that mode.
 set -u
 R="${MUT_REPO:-/repo}"
-if [ "$R" != /repo ]; then export VERIF_REPO="$R" VERIF_TARGET_DIR="${MUT_TARGET_DIR:-/verif/harness/target-mut}"; fi
 P="$(readlink -f "$1")"; shift
 cd "$(dirname "$(readlink -f "$0")")/.." || exit 2
+if [ "$R" != /repo ]; then export VERIF_REPO="$R" VERIF_TARGET_DIR="${MUT_TARGET_DIR:-$PWD/harness/target-mut}"; fi
 if [ -n "$(git -C "$R" status --porcelain)" ]; then echo "$R is not clean"; exit 2; fi
 git -C "$R" apply "$P" || { echo "patch does not apply"; exit 2; }
 trap 'git -C "$R" checkout -q -- .; git -C "$R" clean -qfd' EXIT
 props="$*"
 [ -z "$props" ] && props=$(python3 -c "import json;print(' '.join(c['property_id'] for c in json.load(open('MANIFEST.json'))['checks']))")
-mkdir -p /tmp/mut-replays
+RD="${MUT_REPLAY_DIR:-/tmp/mut-replays}"; mkdir -p "$RD"
 caught=""
 for id in $props; do
-    out=$(VERIF_REPLAY_DIR=/tmp/mut-replays ./run.sh check "$id" "${TIER:-quick}" 2>&1); code=$?
+    out=$(VERIF_REPLAY_DIR="$RD" VERIF_EVIDENCE_DIR="$RD/evidence" ./run.sh check "$id" "${TIER:-quick}" 2>&1); code=$?
     line=$(echo "$out" | grep -A1 -m1 "VIOLATION" | tr '\n' ' ' | cut -c1-330)
     [ $code -eq 1 ] && caught="$caught $id"
     [ $code -ne 0 ] && echo "  $id exit=$code $line"
